@@ -3,8 +3,8 @@
 TLC: spec/Merge.tla.  A case = (runtime tree, stubs tree) over the names a, b (classes: inner u, v);
 for every case the spec runs the loader/merger machine once per (placement, discovery order) - ten
 runs - and evaluates the clauses of the property on each run and across the runs.
-   Merge_gen.cfg     clauses asserted on the clean domain (TLC must verify them) + every case emitted
-   Merge_defect.cfg  one case per documented defect class, guard off, -continue: TLC must REPORT each Defect* violated
+   Merge_gen.cfg     Legacy = {} (the code as it is): all clauses asserted on the WHOLE domain + every case emitted
+   Merge_defect.cfg  regression config, model only: Legacy = the pre-fix statements; TLC must REPORT each old Defect* violated
 Binding: every emitted case is written to disk in all five placements and both listing orders and
 loaded by the real Griffe (listing order injected by wrapping os.walk / Path.iterdir, merge_stubs and
 Alias.resolve_target tapped in the harness process):
@@ -27,8 +27,9 @@ from gverif.props import c19_check as k
 from gverif.props import c19_world as w
 
 # defect class of the spec -> invariant TLC must report violated when the clean-domain guard is off
-DEFECTS = {
+DEFECTS = {      # old defect class (Legacy statements of merger.py re-enabled in the model) -> "invariant" TLC must report
     "alias": "DefectAliasResolved",
+    "aliaso": "DefectOverloadsResolveAlias",
     "raise": "DefectRaises",
     "sov": "DefectStubOverloadsLost",
     "ovomis": "DefectOverloadsOnNonFunction",
@@ -90,7 +91,7 @@ def tlc_all(run: Run, tier: str):
     with ThreadPoolExecutor(len(jobs)) as ex:
         futs = {name: ex.submit(fn) for name, fn in jobs.items()}
         res = {name: f.result() for name, f in futs.items()}
-    gen = tlc.must(res["gen"])            # clean domain verified: no invariant may be violated under the guard
+    gen = tlc.must(res["gen"])            # whole domain verified: no invariant may be violated
     run.add_tlc(gen)
     r = tlc.must(res["defects"], allow_violations=True)
     run.add_tlc(r)
@@ -103,10 +104,10 @@ def tlc_all(run: Run, tier: str):
 def main(tier: str, replay: str | None = None):
     ensure_repo()
     run = Run("C19", tier)
-    run.rule = ("Merge.tla: cells = canonical (runtime kind, stub kind, presence bits, inner member kinds) combinations; quick: every cell with at most one group of presence bits off default alone, "
-                "every kinds-only cell next to 3 context cells, module docstring modes; thorough: every cell x 6 context cells x 2 docstring modes. "
-                "Each case x 5 placements x 2 listing orders is replayed.  Non-trivial = the stubs side defines or overloads at least one name and "
-                "some name/inner name is present on a side; distinct by (cell a, cell b, mdoc).")
+    run.rule = ("Merge.tla: cells = canonical (runtime kind, stub kind, presence bits, parameter sets incl. none, inner member kinds) combinations; quick: every cell with at most "
+                "one group of presence bits off default alone, kinds-only cells x 4 context cells in both declaration orders, module docstring modes; thorough: every cell x 6 "
+                "context cells, kinds-only cells x 6 contexts in both orders.  Each case x 5 placements x 2 listing orders is replayed.  Non-trivial = the stubs side defines "
+                "or overloads at least one name and some name/inner name is present on a side; distinct by (cell a, cell b, mdoc).")
     procs = max(2, min(12, (os.cpu_count() or 4) - 4))
     if replay:
         with open(replay) as fh:
@@ -121,17 +122,14 @@ def main(tier: str, replay: str | None = None):
     gen = tlc_all(run, tier)
     cases = gen.cases
     tags = {t for c in cases for t in c["tags"]}
-    if not cases or tags != set(DEFECTS) or not any(not c["tags"] for c in cases):
-        die(f"C19: vacuous case set: {len(cases)} cases, defect classes {sorted(tags)}")
+    if len(cases) < 500 or tags:     # Legacy = {}: no documented defect class is left, every case is asserted
+        die(f"C19: unexpected case set: {len(cases)} cases, defect classes {sorted(tags)}")
     run.exhaustive = True
-    if tier == "thorough" and len(cases) > 9000:
+    if tier == "thorough" and len(cases) > 20000:
         rnd = random.Random(SEED)
-        cases = rnd.sample(cases, 9000)
+        cases = rnd.sample(cases, 20000)
         run.exhaustive = False
-        run.note(f"replayed a seeded sample of 9000 of the {len(gen.cases)} cases TLC checked")
+        run.note(f"replayed a seeded sample of 20000 of the {len(gen.cases)} cases TLC checked")
     facts = replay_cases(run, cases, procs)
-    need = {"load-raised", "runtime-module-replaced", "deref-ovl-ok", "deref-ovl-fail"}   # (kind-test dereferences: fixed)
-    if not run.violations and not need <= facts:
-        run.note(f"behaviours of the real code no longer observed: {sorted(need - facts)}")
     run.extra["facts"] = sorted(facts)
     run.finish()
